@@ -91,18 +91,27 @@ def units_for(prop, tier):
 def hist_units(tier):
     units = []
     pres = [None] if tier == "quick" else [None, 0x25, 0x32]
+    nh = len(cpu.HISTORY)
     for pre in pres:
         for op in range(256):
             if op in cpu.PRE_BYTES:
                 continue
-            hs = [0] if tier == "quick" else [0, 1, 2]
-            if op in cpu.BLOCK_OPS or tier != "quick":
-                hs = [0, 1] if tier == "quick" else [0, 1, 2]
+            block = op in cpu.BLOCK_OPS or (op == 0xEF and pre is not None)
+            if tier == "quick":
+                hs = [0, 2, 4] if block else ([0, 3] if op in (0x06, 0x07, 0x01, 0x04, 0x05) else [0])
+            else:
+                hs = list(range(nh))
             for h in hs:
-                u = dict(pre=pre, opcode=op, hist=h, wall_s=500)
-                if op in cpu.BLOCK_OPS:
-                    u["block_n"] = 1 if tier == "quick" else 2
-                units.append(u)
+                if block:
+                    # I = 0 (loop skipped: nothing may leak from scratch state) and I >= 1
+                    for n in ((0, 1) if tier == "quick" else (0, 1, 2)):
+                        if op in BCD_OPS and n > 1:
+                            continue
+                        units.append(dict(pre=pre, opcode=op, hist=h, wall_s=500, block_n=n))
+                else:
+                    units.append(dict(pre=pre, opcode=op, hist=h, wall_s=500))
+    heavy = {0xD4: 0, 0xC4: 1, 0xD5: 2, 0xC5: 3}
+    units.sort(key=lambda u: heavy.get(u["opcode"], 50))
     return units
 
 
@@ -139,6 +148,14 @@ def run(prop, tier):
         units = hist_units(tier)
         reps = common.run_units("contracts.cpu:hist_entry", units, budget=600)
         v.absorb(reps, known)
+        proved = (v.obligations, v.discharged)
+        cunits = [dict(pre=pre, opcode=op, samples=6 if tier == "quick" else 40, seed=common.seed(), kind="concrete-history")
+                  for pre in ([None, 0x32] if tier == "quick" else [None, 0x32, 0x25, 0x21]) for op in range(256) if op not in cpu.PRE_BYTES]
+        creps = common.run_units("contracts.cpu:unit_hist_concrete", cunits, budget=300)
+        v.absorb(creps, known)
+        v.obligations, v.discharged = proved
+        v.extra["bounded_obligations"] = dict(generated=sum(r.get("obligations", 0) for r in creps), discharged=sum(r.get("proved", 0) for r in creps),
+                                              note="concrete sampled histories sharing leading instruction bytes (caches keyed on partial bytes): bounded, not counted")
         v.bounded = _bounded_note(units) + [dict(part="history", bound="3 concrete history instructions executed on the same Emulator object at the same address; TEMP0-13 fully symbolic and different in the two runs",
                                                  note="TEMP contents are covered for all values; other hidden state only through the listed histories")]
         v.assumptions.append("Rust half of C07 (LlamaState call bookkeeping, PERF statics) not decided")
